@@ -1,0 +1,15 @@
+//go:build verif
+
+package httpapi
+
+import (
+	"net/http"
+
+	"github.com/semafind/semadb/cluster"
+)
+
+// VerifSetupRouter exposes the unexported router composition (v1 + v2 handlers behind the
+// production middleware chain) to the correspondence harness (build tag "verif" only).
+func VerifSetupRouter(cnode *cluster.ClusterNode, cfg HttpApiConfig) http.Handler {
+	return setupRouter(cnode, cfg, nil)
+}
